@@ -35,7 +35,8 @@ pub fn with_watchdog<F: FnOnce() + Send + 'static>(what: String, secs: u64, f: F
         let previous = std::panic::take_hook();
         std::panic::set_hook(Box::new(move |info| {
             if let Some(name) = std::thread::current().name() {
-                if name.starts_with("verif-scenario-") {
+                // (this file is included by several scenario modules of one test binary: each has its own registry and its own thread names)
+                if name.starts_with(concat!("verif-scenario-", module_path!(), "-")) {
                     let msg = info.payload().downcast_ref::<String>().cloned().or_else(|| info.payload().downcast_ref::<&str>().map(|s| s.to_string())).unwrap_or_else(|| "(panic)".to_string());
                     PANICS.lock().unwrap_or_else(|e| e.into_inner()).push((name.to_string(), msg));
                 }
@@ -43,7 +44,7 @@ pub fn with_watchdog<F: FnOnce() + Send + 'static>(what: String, secs: u64, f: F
             previous(info);
         }));
     });
-    let name = format!("verif-scenario-{}", COUNTER.fetch_add(1, AtOrd::SeqCst));
+    let name = format!("verif-scenario-{}-{}", module_path!(), COUNTER.fetch_add(1, AtOrd::SeqCst));
     let (tx, rx) = std::sync::mpsc::channel();
     let h = std::thread::Builder::new()
         .name(name.clone())
